@@ -220,6 +220,32 @@ def c19_5(c: Ctx) -> None:
 
         expr = _Res().visit(_copy.deepcopy(expr)) if expr is not None else expr
         got = canon(expr)
+        if expr is not None and got != want:
+            # a new optional parameter (a cap on the wait, say) may sit in the expression: read it at its default, when that is all the library itself ever passes
+            from .common import at_new_defaults
+
+            expr2, fixed = at_new_defaults(c, u, expr)
+            if fixed and canon(expr2) != want:
+                # ... or in the statements that compute the argument: the whole function at the defaults, then the same question
+                from sa.loader import set_parents
+
+                fn2, _ = at_new_defaults(c, u, u.node)
+                set_parents(fn2)
+                sleeps2 = [n for n in own_nodes(fn2) if isinstance(n, ast.Call) and U(n.func) in ('asyncio.sleep', 'sleep')]
+                idx_ = sleeps.index(s)
+                if len(sleeps2) == len(sleeps) and sleeps2[idx_].args:
+                    a2 = sleeps2[idx_].args[0]
+                    seen_: set[str] = set()
+                    while isinstance(a2, ast.Name) and a2.id not in seen_:
+                        seen_.add(a2.id)
+                        ds = [n for n in own_nodes(fn2) if isinstance(n, ast.Assign) and len(n.targets) == 1 and isinstance(n.targets[0], ast.Name) and n.targets[0].id == a2.id]
+                        if len(ds) != 1:
+                            break
+                        a2 = ds[0].value
+                    expr2 = a2
+            if fixed and canon(expr2) == want:
+                c.note(f'the wait expression is read with the new optional parameter(s) {fixed} at their defaults (no library caller passes anything else)')
+                expr, got = expr2, canon(expr2)
         if got == want:
             c.ok(where(u, s), f'sleep argument = {U(expr)} ≡ wait * backoff_factor ** {k}')
         elif any(t[0] == 'opaque' for t in _flatten(got)):
